@@ -232,6 +232,17 @@ var c14Specials = []c14Special{
 		Host:   "package c14guard_test\n\nfunc c14first(n int) int {\n\tn--\n\treturn n\n}\n\nfunc c14other(n int) int {\n\tn++\n\treturn n\n}\n",
 	},
 	{
+		// Generated source: //line directives make the positions of the file
+		// mean other lines, here far smaller and far larger numbers than the
+		// file has lines; the rewritten calls span several lines.
+		Label: "under-line-directives",
+		Text:  "@@\nvar a, b, c expression\n@@\n-c14span(a, b, c)\n+c14span(a, c)\n",
+		Plants: []string{
+			"c14span(c14one,\n\tc14two,\n\tc14three)", "c14span(\n\t1,\n\t2, // two\n\t3,\n)", "_ = c14span(c14f(\n\t1,\n), c14g(),\n\tc14h())", "c14span(1, 2, 3)",
+		},
+		Host: "package c14lines\n\n//line gen.y:2\nfunc c14first(n int) int {\n\tn--\n\treturn n\n}\n\n//line gen.y:9000\nfunc c14second(n int) int {\n\tn++\n\treturn n\n}\n\n// c14third is documented.\n//line other.y:1\nfunc c14third() {\n\tc14sink()\n}\n",
+	},
+	{
 		// Not idempotent: applying the change twice shows in the bytes.
 		Label:  "bump",
 		Text:   "@@\nvar x expression\n@@\n-c14bump(x)\n+c14bump(x + 1)\n",
